@@ -26,6 +26,7 @@ partial def parseEvents : List String → Option (List Ev)
 def handle (ws : List String) : String :=
   match ws with
   | "at" :: _ => Seata.Driver.AT.handle ws
+  | ["skip"] => "skip"      -- a case decided by the oracle on the implementation alone
   | ["sfu", e, m, r] =>
     let reply : Option Reply := if r == "lockable" then some .lockable else if r == "conflict" then some .conflict
       else if r == "failed" then some .failed else none
